@@ -66,9 +66,45 @@ def add_docstrings(src: str) -> str:
     return ast.unparse(tree) + "\n"
 
 
-TRANSFORMS = {"reformat": reformat, "add-docstrings": add_docstrings, "rename-locals": rename_locals}
+class _SwapEq(ast.NodeTransformer):
+    """a == b  ->  b == a  (single comparisons only; numpy's == is symmetric, also against scalars and str)"""
+
+    def visit_Compare(self, node):
+        self.generic_visit(node)
+        if len(node.ops) == 1 and isinstance(node.ops[0], (ast.Eq, ast.NotEq)) and not isinstance(
+                node.comparators[0], ast.Constant):
+            node.left, node.comparators = node.comparators[0], [node.left]
+        return node
+
+
+def swap_eq(src: str) -> str:
+    tree = _SwapEq().visit(ast.parse(src))
+    ast.fix_missing_locations(tree)
+    return ast.unparse(tree) + "\n"
+
+
+class _SwapBranches(ast.NodeTransformer):
+    """if T: A else: B  ->  if not T: B else: A  (plain if/else without elif)"""
+
+    def visit_If(self, node):
+        self.generic_visit(node)
+        if node.orelse and not (len(node.orelse) == 1 and isinstance(node.orelse[0], ast.If)):
+            node.test = ast.UnaryOp(op=ast.Not(), operand=node.test)
+            node.body, node.orelse = node.orelse, node.body
+        return node
+
+
+def swap_branches(src: str) -> str:
+    tree = _SwapBranches().visit(ast.parse(src))
+    ast.fix_missing_locations(tree)
+    return ast.unparse(tree) + "\n"
+
+
+EXPERIMENTAL = {}
+TRANSFORMS = {"reformat": reformat, "add-docstrings": add_docstrings, "rename-locals": rename_locals,
+              "swap-eq": swap_eq, "swap-branches": swap_branches}
 
 
 def overrides(prog: Program, name: str):
-    f = TRANSFORMS[name]
+    f = TRANSFORMS.get(name) or EXPERIMENTAL[name]
     return {m.name: f(m.source) for m in prog.modules.values() if m.source.strip()}
